@@ -265,7 +265,7 @@ class Ctx(Result):
             if n not in self.required_guards:
                 self.required_guards.append(n)
 
-    def pmap(self, fn, jobs, workers=None):
+    def pmap(self, fn, jobs, workers=None, tasks_per_child=None):
         """Run module-level function ``fn`` over ``jobs`` in a spawn pool; merge the results."""
         jobs = list(jobs)
         if not jobs:
@@ -277,7 +277,10 @@ class Ctx(Result):
                 self._take(_run_job(modname, fname, j))
             return
         ctx = mp.get_context("spawn")
-        with ProcessPoolExecutor(max_workers=nw, mp_context=ctx, initializer=_worker_init) as ex:
+        # workers are recycled after a few jobs: every XLA compilation maps executable memory that is never
+        # returned, and a long-lived worker eventually hits the process's map limit ("Cannot allocate memory")
+        with ProcessPoolExecutor(max_workers=nw, mp_context=ctx, initializer=_worker_init,
+                                 max_tasks_per_child=tasks_per_child) as ex:
             futs = [ex.submit(_run_job, modname, fname, j) for j in jobs]
             for f in as_completed(futs):
                 self._take(f.result())
